@@ -292,6 +292,27 @@ type checker struct {
 	// for it, the exporter's "invalid native histogram schema" is not held
 	// against it
 	tolerateSchemaErr bool
+	classes           map[string]bool // observed while checking (per case)
+}
+
+func (k *checker) class(cond bool, name string) {
+	if cond {
+		if k.classes == nil {
+			k.classes = map[string]bool{}
+		}
+		k.classes[name] = true
+	}
+}
+
+func (k *checker) flushClasses(info *vk.Info) {
+	names := make([]string, 0, len(k.classes))
+	for n := range k.classes {
+		names = append(names, n)
+	}
+	sort.Strings(names)
+	for _, n := range names {
+		info.Class(n)
+	}
 }
 
 // handled reports the errors that went to otel.Handle during a scrape.
@@ -511,6 +532,18 @@ func (k *checker) exact(tag string, mfs []*dto.MetricFamily, gerr error, rm *met
 		// asserted), scale > 8 must be shown at schema 8
 		required, above8 := 0, int32(0)
 		for _, pt := range pts {
+			if e := pt.exp; e != nil {
+				k.class(e.unrepresentable(), "exp_point_scale_below_-4(not representable, nothing asserted)")
+				k.class(e.needsDownscale(), "exp_point_scale_above_8(want schema 8)")
+				k.class(!e.unrepresentable() && !e.needsDownscale(), "exp_point_scale_-4..8")
+				k.class(e.scale < 0 && !e.unrepresentable(), "exp_point_negative_scale")
+				k.class(int(e.scale) < in.ExpScale, "exp_point_rescaled(scale<MaxScale)")
+				k.class(len(e.pos) > 0 && len(e.neg) > 0, "exp_point_positive_and_negative_buckets")
+				k.class(len(e.pos) > 0 && len(e.neg) > 0 && e.posOff != e.negOff, "exp_point_offsets_differ")
+				k.class(len(e.pos) > 0 && len(e.neg) == 0, "exp_point_positive_only")
+				k.class(len(e.pos) == 0 && len(e.neg) > 0, "exp_point_negative_only")
+				k.class(e.zeroCount > 0, "exp_point_zero_count")
+			}
 			if pt.exp != nil && pt.exp.unrepresentable() {
 				k.tolerateSchemaErr = true
 				continue
@@ -887,6 +920,7 @@ func runSeq(c Case) ([]vk.Violation, vk.Info) {
 		k.handled(tag, errs)
 	}
 	info.ClassIf(len(c.Rounds) > 1, "several_scrapes")
+	k.flushClasses(&info)
 	return k.vs, info
 }
 
@@ -927,6 +961,7 @@ func runConc(c Case) ([]vk.Violation, vk.Info) {
 	for rep := 0; rep < reps && len(k.vs) == 0; rep++ {
 		concRun(k, &c, rep, errs)
 	}
+	k.flushClasses(&info)
 	return k.vs, info
 }
 
